@@ -193,6 +193,22 @@ def run(ctx, chk):
                 chk.ob('C17.Y5', 'clients:%s:error-iff-shm-call-failed' % side, good, r['path'].where[2],
                        '%s client: failing shm call = %s, outcome = %s%s' % (side, r['stage'], out[0] if out else 'unclassified',
                        '' if good else ' -- an outcome decided by the wrapper itself: the other client library does not make it'))
+                if side == 'c' and out is not None:
+                    # what the C caller is told: NULL exactly on success; on failure a pointer to the error record this very
+                    # call filled in -- never a verdict left over from an earlier call on the same context
+                    pv = r['path'].value
+                    is_null = wrappers_model.describe(pv) == ('empty', 'null') or (pv[0] == 'c' and pv[1] in (0, ('b', '0000000000000000')))
+                    conds_on_ctx = [psi.fmt_cond(c)[:70] for c in r['path'].conds
+                                    if c[0][0] == 't' and c[0][1] == 'discr' and wrappers_model.call_of(c[0][2][0]) is None and 'err' in fmt(c[0])]
+                    if out[0] == 'ok':
+                        good_p = is_null and not conds_on_ctx
+                    else:
+                        good_p = pv[0] == 'ref' and not is_null and not conds_on_ctx
+                    chk.ob('C17.Y5', 'clients:c:returned-pointer-is-this-call-verdict', good_p, r['path'].where[2],
+                           'outcome %s, returned pointer %s%s%s' % (out[0], fmt(pv)[:60],
+                               ' (decided by the state an earlier call left in the context: %s)' % conds_on_ctx if conds_on_ctx else '',
+                               '' if good_p else ' -- the C caller is told something else than what this call did (the Rust client '
+                               'on the same segment at the same moment answers from this call alone)'))
             chk.floor('C17.Y5', 'returning paths of the %s client' % side, n_rows, 2)
         kmap = {'Syscall': 'CLOCKBOUND_ERR_SYSCALL', 'SegmentNotInitialized': 'CLOCKBOUND_ERR_SEGMENT_NOT_INITIALIZED',
                 'SegmentMalformed': 'CLOCKBOUND_ERR_SEGMENT_MALFORMED', 'CausalityBreach': 'CLOCKBOUND_ERR_CAUSALITY_BREACH'}
